@@ -241,11 +241,13 @@ SHARED_CLAUSES = {
   "text": " (ID-text) model.Text, interpreted on composed, decomposed and compatibility characters, stores the string it is given code point for code point (no normalisation between reader and writer);",
   "validators": " (VAL-strict) every style property whose type is an enumeration or bool rejects, interpreted, the raw tokens of the enumeration and the numbers 0 / 1, and LengthType rejects raw unit symbols "
                 "and non-numbers: tests by identity (`is DisplayType.none`, `units is Units.px`) in the snapshot and the writers rely on that;",
+  "chains": " (FIN-chain) chained referential styling, interpreted on small style graphs: own values win over referenced ones, later references over earlier ones, references of references are followed, a style reached along two paths is merged on both, unknown references are skipped and a loop of references ends;",
+  "rubykids": " (FIN-rubykids) Ruby.push_children and Rtc.push_children, interpreted on sample child sequences, accept exactly the TTML2 ruby content models (rb rt | rb rp rt rp | rbc rtc | rbc rtc rtc; rt+ | rp rt+ rp);",
   "truthy": " (LINT-n) no result of a getter declared Optional[number] (get_begin, get_end, ...) and no parameter annotated so is tested by truthiness: 0 is a legal offset distinct from None;",
 }
 
 
-def check_shared_helpers(ctx, color=False, text=False, validators=False, truthy_modules=None):
+def check_shared_helpers(ctx, color=False, text=False, validators=False, truthy_modules=None, chains=False, rubykids=False):
   """Value-level functions of the shared modules (utils, model, style_properties) that the anchored code relies on."""
   from ..rules import probes, lint as _lint
   if color:
@@ -257,6 +259,12 @@ def check_shared_helpers(ctx, color=False, text=False, validators=False, truthy_
   if validators:
     n = probes.check_validators_strict(ctx)
     ctx.floor("VAL-strict", "validator probes decided", n, 60)
+  if rubykids:
+    n = probes.check_ruby_children(ctx)
+    ctx.floor("FIN-rubykids", "ruby child sequences decided", n, 25)
+  if chains:
+    n = probes.check_style_chains(ctx)
+    ctx.floor("FIN-chain", "style graph scenarios decided", n, 6)
   if truthy_modules:
     names = [n_ for n_ in dict.fromkeys(truthy_modules) if n_ in ctx.ix.modules]
     fs = [f for n_ in names for f in ctx.ix.funcs_in(n_)]
